@@ -404,6 +404,15 @@ var LexSpecs = []*LexSpec{
 			{"u", Seq(Rep(Seq(Opt(Seq(C('b'))))), C('c'))},
 			{"v", Seq(C('d'), Opt(Seq(Rep(Seq(Opt(Seq(C('e'))), Opt(Seq(C('f'))))))), C('g'))},
 		}, SynLits: []string{"q"}},
+	{Name: "L17", Why: "a character literal that is the upper (or lower) end of a range of a later token in the same state",
+		Prods: []LProd{
+			{"kw", Seq(C('f'), C('o'), C('o'))},
+			{"hex", Seq(R('a', 'f'), Rep(Seq(R('a', 'f'))))},
+			{"up", Seq(C('K'), C('!'))},
+			{"mid", Seq(R('A', 'K'), C('?'))},
+			{"lo", Seq(C('0'), C('x'))},
+			{"dig", Seq(R('0', '9'), R('0', '9'))},
+		}, SynLits: []string{"q"}},
 	{Name: "L10", Why: "declaration order between equal patterns; token vs ignored token with the same text",
 		Prods: []LProd{
 			{"first", Seq(C('a'), C('b'))},
